@@ -24,6 +24,11 @@ DEPS = {
 OWN_ONLY = {'C09.exact'}
 
 
+# preconditions that exist only to rule out a panic in the callee (`offset + 1` overflow in context::after; calling the
+# caller's closure): a call site that does not establish them is a C01 failure, unlike the functional preconditions
+SAFETY_REQ = {'REQ.after', 'REQ.f_total'}
+
+
 def _closure(p, seen=None):
     seen = seen if seen is not None else set()
     for d in DEPS.get(p, []):
